@@ -101,6 +101,9 @@ var c17Seeds = []string{
 	`count_over_time({job="j"}[5s]) + on (app) group_left (status) count_over_time({job="j"}[5s])`, `count_over_time({job="j"}[5s]) * ignoring (app) count_over_time({job="j"}[5s])`,
 	`label_replace(count_over_time({job="j"}[5s]), "a", "$1", "app", "(.*)")`, `sum(label_replace(rate({job="j"}[5s]), "a", "b", "c", ".*")) by (a)`,
 	`(((count_over_time({job="j"}[5s]))))`, `((vector(1)) + ((vector(2))))`, `sum(sum(sum(sum(sum(count_over_time({job="j"}[5s]))))))`,
+	`{job=""} |= "" != "" |~ "" !~ "" | json a="" | logfmt b="" | pattern "" | regexp "" | line_format "" | label_format c="" | drop d="" | keep e=~"" | f="" | g=~""`,
+	`{job="j"} | logfmt lvl=""`, `{job="j"} | json lvl=""`, `{job="j"} | pattern ""`, `{job="j"} |= ip("")`, `{job="j"} | addr == ip("")`, `count_over_time({job="j"} | logfmt lvl="" [1m])`,
+	`label_replace(count_over_time({job="j"}[5s]), "", "", "", "")`, `sum_over_time({job="j"} | unwrap v | v="" [5s])`, `quantile_over_time(0, {job="j"} | unwrap bytes(v) [0s])`, `topk(1, count_over_time({job=""}[1ns] offset 0s)) by ()`,
 	`{job="j"} # comment`, "{job=\"j\"}\n|= `raw`\n| json", `{job="j"} |= "\x00\xff"`, `{job="j"} |~ "(a|b)*c{1,3}[[:alpha:]]\\pL"`,
 }
 
@@ -122,7 +125,23 @@ func mutateQuery(r *vk.RNG, q string) (string, string) {
 		k := r.Range(1, 3)
 		for i := 0; i < k && len(toks) > 0; i++ {
 			p := r.Intn(len(toks))
-			switch r.Intn(5) {
+			switch r.Intn(7) {
+			case 5: // blank out a string literal / zero a number
+				for tries := 0; tries < 8; tries++ {
+					q := r.Intn(len(toks))
+					if strings.HasPrefix(toks[q], "\"") || strings.HasPrefix(toks[q], "`") {
+						toks[q] = vk.Pick(r, []string{`""`, "``", `" "`, `"\x00"`, `"("`, `"{{"`, `"<"`, `"["`, `"\\"`})
+						break
+					}
+				}
+			case 6:
+				for tries := 0; tries < 8; tries++ {
+					q := r.Intn(len(toks))
+					if len(toks[q]) > 0 && toks[q][0] >= '0' && toks[q][0] <= '9' {
+						toks[q] = vk.Pick(r, []string{"0", "0s", "0.0", "1e999", "9223372036854775807", "99999999999h", "0B", "1ns"})
+						break
+					}
+				}
 			case 0:
 				toks = append(toks[:p], toks[p+1:]...)
 			case 1:
